@@ -42,6 +42,42 @@ func init() {
 		},
 	})
 	regProp(&propDef{
+		id:   "C19",
+		gen:  func(seed uint64, th bool) *Plan { return genPersistPlan(seed, th) },
+		chk:  newPersistChecker,
+		rule: "an emulator with a persist path; one connection runs a history over databases 0-2 biased to in-place mutators (LSET, LINSERT, LTRIM, SREM, SMOVE, HDEL, EXPIRE, PERSIST, GETEX, SETRANGE), deletions, empty strings and FLUSHDB/FLUSHALL, with the periodic saver running between phases (clock moved 1.1 s, then quiescence); class restart: clean Close (or RequestTermination+WaitForTermination), a new emulator on the same path, the same connection carries on and an observer reads every key of every database; replies and the full stored state (values, order, deadlines) must equal the model, which knows nothing about the restart; class crash: at a chosen stage of a chosen snapshot write the directory is copied as the crash image, plus torn variants (the file in flight cut at 0, 1, half, all-but-one bytes, or at every length when it is short; temp file lost), an emulator is started on each image and each database must equal its previous or its new snapshot; non-trivial = the restart was verified after at least one in-place mutation or deletion, or at least one crash image was checked; distinct = distinct scheduler event sequence",
+		nontrivial: func(res *RunResult) bool {
+			return res.Extra["crash-images-checked"] >= 1 || (res.Stats.Faults["emu-new"] >= 1 && res.Stats.Replies >= 8)
+		},
+		quickRuns:       1500,
+		thoroughRuns:    100000,
+		quickSeconds:    75,
+		thoroughSeconds: 900,
+		level:           "fault_enumeration",
+		explanation:     "Crash points: the stage callback (verif hook H5) fires after create, after the header, after each key, before close and after the rename; per run one (save, stage) pair is chosen by the seed and the prefix truncations of the file in flight are enumerated for it (all lengths when the file is at most 64 bytes, else 0/1/half/all-but-one). Real files in a per-run temp directory; the 'crash' is a copy of the directory taken inside the callback, i.e. while the writer is stopped at that stage.",
+		assumptions: []string{
+			"a crash leaves some prefix of the file being written and every completed rename; files not being written are intact (no sector-level corruption of old data)",
+			"the saver is given time to finish before the next command (await-idle), so the model snapshot taken at 'created' is the state the snapshot must contain",
+		},
+	})
+	regProp(&propDef{
+		id:   "C17",
+		gen:  func(seed uint64, th bool) *Plan { return genScanPlan(seed, th) },
+		chk:  newScanChecker,
+		rule: "a scanner connection runs 1-3 full iterations (SCAN / HSCAN / SSCAN; COUNT 1,2,3,10,1000; MATCH from a small glob grammar; TYPE) on a collection of 0-600 elements while 0-2 mutator connections insert bursts of new elements, delete bursts (so the one-item-per-bucket table doubles and halves) and re-add elements between the scanner's calls, the tape deciding the interleaving; the model (exact, turn-taking) gives for each iteration the elements present at every step and those present at some step; oracle: always-present and matching => returned; returned => present at some step and matching; the iteration ends; non-trivial = an iteration completed during which the table was resized or elements were added/removed; distinct = distinct scheduler event sequence",
+		nontrivial: func(res *RunResult) bool {
+			return res.Extra["iterations-completed"] >= 1 && (res.Extra["rehash-during-iteration"] >= 1 || res.Stats.Replies > 20)
+		},
+		needProbes:      []string{"rehash-during-iteration"},
+		quickRuns:       1500,
+		thoroughRuns:    100000,
+		quickSeconds:    75,
+		thoroughSeconds: 900,
+		level:           "exploration",
+		explanation:     "Cursor values are opaque to the oracle. The interleaving is at command granularity (the guarantee SCAN gives is about changes between calls); atomicity of a single SCAN call against concurrent writers is C08/C16 territory.",
+		assumptions:     []string{"the reference model tracks the collection exactly because commands take turns", "termination: a full iteration must end within 4000 calls (collections have at most ~2000 elements, tables at most 4096 buckets)"},
+	})
+	regProp(&propDef{
 		id:   "C16",
 		gen:  func(seed uint64, th bool) *Plan { return genRacePlan(seed, th) },
 		chk:  newRaceChecker,
